@@ -232,6 +232,29 @@ fn dir_linear(rng: &mut Rng) -> Prog {
     b.finish(rng)
 }
 
+/// every pattern of batch dimensions of a Gemm / Matmul pair: equal, missing on one side, size 1 on
+/// one side (also with the operand of full rank), crossed size-1 dimensions
+fn dir_batch_patterns(rng: &mut Rng, idx: usize) -> Prog {
+    let mut b = Pb::new();
+    let st = *rng.pick(&ALL_ST);
+    let (n, k, m) = (1 + rng.below(2), 2 + rng.below(2), 1 + rng.below(3));
+    let (d, e) = (2 + rng.below(2), 2 + rng.below(2));
+    let pats: Vec<(Vec<u64>, Vec<u64>)> = vec![
+        (vec![1], vec![d]), (vec![d], vec![1]), (vec![d], vec![d]), (vec![], vec![d]), (vec![d], vec![]),
+        (vec![d, 1], vec![1, e]), (vec![1, e], vec![d, 1]), (vec![1, 1], vec![d, e]), (vec![d, e], vec![1, 1]),
+        (vec![d, 1], vec![d, e]), (vec![1, e], vec![d, e]), (vec![d, e], vec![e]), (vec![1], vec![d, e]), (vec![d, 1], vec![e]),
+    ];
+    let (ba, bb) = pats[idx % pats.len()].clone();
+    let gemm = (idx / pats.len()) % 2 == 0;
+    let (ta, tb) = if gemm { (rng.chance(1, 2), rng.chance(1, 2)) } else { (false, false) };
+    let sa = [ba, if ta { vec![k, n] } else { vec![n, k] }].concat();
+    let sb = [bb, if tb { vec![m, k] } else { vec![k, m] }].concat();
+    let x = b.input(array_type(sa, st));
+    let y = b.input(array_type(sb, st));
+    b.add(vec![x, y], if gemm { Operation::Gemm(ta, tb) } else { Operation::Matmul });
+    b.finish(rng)
+}
+
 fn dir_broadcast(rng: &mut Rng) -> Prog {
     let mut b = Pb::new();
     let st = *rng.pick(&ALL_ST);
@@ -693,6 +716,10 @@ pub fn run(tier: &str, seed: u64, out: &mut Out) {
     for i in 0..n_dir {
         let p = match i % 4 { 0 => dir_linear(&mut rng), 1 => dir_broadcast(&mut rng), _ => dir_struct(&mut rng) };
         progs.push((p, "directed"));
+    }
+    let n_pat = match tier { "thorough" => 28 * 6, "search" => 28 * 12, _ => 28 };
+    for i in 0..n_pat {
+        progs.push((dir_batch_patterns(&mut rng, i), "directed"));
     }
     for (p, origin) in progs.iter() {
         if cases {
